@@ -10,6 +10,7 @@ mod offsets;
 mod enc;
 mod vcd;
 mod fstw;
+mod hier;
 
 fn dispatch(cmd: &str, args: &[&str]) -> String {
     match cmd {
@@ -17,6 +18,7 @@ fn dispatch(cmd: &str, args: &[&str]) -> String {
         "enc" => enc::run(args),
         "body" => vcd::run_body(args),
         "fstw" => fstw::run(args),
+        "hier" => hier::run(args),
         "vcd" => vcd::run_vcd(args),
         _ => "UNSUPPORTED".to_string(),
     }
